@@ -424,6 +424,12 @@ def expand_c11l(st, seed):
         r["inside"] = [[0] + g for g in _grid(xs)]
         r["ic"] = dict(on=True, t0=0, u0=[rpoly(rng, dim, 2, 2) for _ in range(M)])
         r["w"]["ic"] = [rng.choice([1, 2])]
+    elif term == "dyn":
+        nres = rng.choice([1, 2])
+        nv = d + M + 2
+        r["R"] = [rpoly(rng, nv, 2, 2, must=d + (c % M)) for c in range(nres)]
+        r["inside"] = _grid(inside_cols)
+        r["w"]["dyn"] = [rng.choice([1, 2])] if nres == 1 else [1, 2]
     elif term == "norm":
         ns = b if has_t else rng.choice([2, 4])
         samp_cols = [[rng.randint(-2, 2) for _ in range(dim)] for _ in range(ns)]
@@ -452,7 +458,7 @@ def expand_c11l(st, seed):
         g = [[dict(c=0, e=[0] * d)] if st["gzero"] else rpoly(rng, d, 2, 1) + [dict(c=rng.choice([1, 2]), e=[0] * d)] for _ in range(ncomp)]
         r["bnd"] = [dict(kind=kind, g=g, comp=comp) for _ in range(2 * dim)]
         r["w"]["bnd"] = [rng.choice([1, 2])]
-    r["check"] = ["ic", "norm", "bnd", "sum"]
+    r["check"] = ["ic", "norm", "bnd", "sum", "dyn"]
     return r
 
 
